@@ -242,7 +242,6 @@ static const Bit16u panlawtable[] =
     4858, 4050, 3240, 2431, 1620, 810, 0
 };
 
-static Bit32u chip_type = ym3438_mode_readmode;
 
 void OPN2_DoIO(ym3438_t *chip)
 {
@@ -1007,7 +1006,7 @@ void OPN2_ChOutput(ym3438_t *chip)
     chip->mol = 0;
     chip->mor = 0;
 
-    if (chip_type & ym3438_mode_ym2612)
+    if (chip->chip_type & ym3438_mode_ym2612)
     {
         out_en = ((cycles & 3) == 3) || test_dac;
         /* YM2612 DAC emulation(not verified) */
@@ -1211,9 +1210,11 @@ void OPN2_KeyOn(ym3438_t*chip)
 
 void OPN2_Reset(ym3438_t *chip, Bit32u rate, Bit32u clock)
 {
-    Bit32u i, rateratio;
+    Bit32u i, rateratio, chip_type;
     rateratio = (Bit32u)chip->rateratio;
+    chip_type = chip->chip_type;
     memset(chip, 0, sizeof(ym3438_t));
+    chip->chip_type = chip_type;
     for (i = 0; i < 24; i++)
     {
         chip->eg_out[i] = 0x3ff;
@@ -1239,9 +1240,9 @@ void OPN2_Reset(ym3438_t *chip, Bit32u rate, Bit32u clock)
     }
 }
 
-void OPN2_SetChipType(Bit32u type)
+void OPN2_SetChipType(ym3438_t *chip, Bit32u type)
 {
-    chip_type = type;
+    chip->chip_type = type;
 }
 
 void OPN2_Clock(ym3438_t *chip, Bit16s *buffer)
@@ -1418,7 +1419,7 @@ Bit32u OPN2_ReadIRQPin(ym3438_t *chip)
 
 Bit8u OPN2_Read(ym3438_t *chip, Bit32u port)
 {
-    if ((port & 3) == 0 || (chip_type & ym3438_mode_readmode))
+    if ((port & 3) == 0 || (chip->chip_type & ym3438_mode_readmode))
     {
         if (chip->mode_test_21[6])
         {
@@ -1448,7 +1449,7 @@ Bit8u OPN2_Read(ym3438_t *chip, Bit32u port)
             chip->status = (chip->busy << 7) | (chip->timer_b_overflow_flag << 1)
                  | chip->timer_a_overflow_flag;
         }
-        if (chip_type & ym3438_mode_ym2612)
+        if (chip->chip_type & ym3438_mode_ym2612)
         {
             chip->status_time = 300000;
         }
